@@ -1,5 +1,110 @@
-import Rtcm.Model.Names
-import Rtcm.Model.Socket
+import Rtcm.Model.WF
 import Rtcm.Gen.Tables
+import Rtcm.Pinned.Sizes
+/-
+  C10 — message layouts conform to the published standards and to each other.
+  All statements are about the tables regenerated from the current source (`Gen.tables`).
+-/
 namespace Rtcm
+open Rtcm.Gen
+
+abbrev T := Rtcm.Gen.tables
+
+def allDefs : List (Ident × List Item) := T.std ++ T.msm ++ T.igs
+
+/-- every field named is a defined data field, every repeat count / condition refers to a field
+    decoded earlier in scope, no malformed node, no attribute laid out twice -/
+theorem C10_all_wf : ∀ e ∈ allDefs, wfDef T e.2 = true := by decide +kernel
+
+/-- the translator met no table key that is unreachable and no field spec it could not represent -/
+theorem C10_tables_clean : T.badKeys = 0 ∧ T.badFields = 0 ∧ ftreeAgrees T = true := by decide +kernel
+
+/-- every definition is reachable: dispatch on its own identity yields exactly that definition
+    (the string-range test of `_get_dict` hides none and no table shadows another) -/
+theorem C10_dispatch_reaches_every_def : ∀ e ∈ allDefs, getDict T e.1 = some e.2 := by
+  have h : ∀ e ∈ allDefs, dispatchesTo T e.1 e.2 = true := by decide +kernel
+  exact fun e he => dispatchesTo_eq (h e he)
+
+/-- every definition starts with the message number field, so the decoded DF002 is the identity's number -/
+theorem C10_first_is_DF002 : ∀ e ∈ allDefs, firstFieldIs e.2 T.special.df002 = true := by decide +kernel
+
+/-- every 4076 definition continues with a 3-bit version and the 8-bit sub-type IDF002,
+    i.e. the identity's sub-type bits are the decoded IDF002 -/
+theorem C10_igs_third_is_IDF002 : ∀ e ∈ T.igs, igsHeaderOk T e.2 = true := by decide +kernel
+
+/-- a message with given repeat counts occupies exactly the number of bits the standards specify:
+    per pinned identity, the fixed part and the bits per iteration of each counter path -/
+theorem C10_pinned_sizes :
+    ∀ p ∈ Pinned.sizes, (getDict T p.1).map (sizeForm T) = some p.2 := by decide +kernel
+
+end Rtcm
+
+namespace Rtcm
+
+/-! ### families the standards define as parallel or composite -/
+
+def blk (n : Nat) (sub : Option Nat := none) (g : Nat := 0) := blockSig T (defOf T n sub) g
+def hdr (n : Nat) (sub : Option Nat := none) := headerSig T (defOf T n sub)
+
+/-- combined orbit+clock SSR satellite block = orbit block followed by the clock block without its
+    satellite id (GPS 1060 = 1057 ++ 1058, GLONASS 1066 = 1063 ++ 1064) -/
+theorem C10_ssr_combined :
+    blk 1060 = blk 1057 ++ (blk 1058).tail ∧ blk 1066 = blk 1063 ++ (blk 1064).tail
+    ∧ hdr 1060 = hdr 1057 ∧ hdr 1066 = hdr 1063 := by decide +kernel
+
+/-- the same for the IGS SSR family in all six constellations: IGM03 = IGM01 ++ tail IGM02 -/
+theorem C10_igs_combined :
+    ∀ c ∈ [1, 2, 3, 4, 5, 6],
+      blk 4076 (some (20 * c + 3)) = blk 4076 (some (20 * c + 1)) ++ (blk 4076 (some (20 * c + 2))).tail
+      ∧ hdr 4076 (some (20 * c + 3)) = hdr 4076 (some (20 * c + 1)) := by decide +kernel
+
+/-- SSR messages that share a header layout -/
+theorem C10_ssr_headers :
+    hdr 1058 = hdr 1059 ∧ hdr 1058 = hdr 1061 ∧ hdr 1058 = hdr 1062
+    ∧ hdr 1064 = hdr 1065 ∧ hdr 1064 = hdr 1067 ∧ hdr 1064 = hdr 1068 := by decide +kernel
+
+/-- extended observables contain the basic ones, field for field and in order, with equal headers -/
+theorem C10_extended_contains_basic :
+    isSublist (blk 1001) (blk 1002) = true ∧ isSublist (blk 1003) (blk 1004) = true
+    ∧ isSublist (blk 1001) (blk 1003) = true ∧ isSublist (blk 1002) (blk 1004) = true
+    ∧ isSublist (blk 1009) (blk 1010) = true ∧ isSublist (blk 1011) (blk 1012) = true
+    ∧ isSublist (blk 1009) (blk 1011) = true ∧ isSublist (blk 1010) (blk 1012) = true
+    ∧ hdr 1001 = hdr 1002 ∧ hdr 1001 = hdr 1003 ∧ hdr 1001 = hdr 1004
+    ∧ hdr 1009 = hdr 1010 ∧ hdr 1009 = hdr 1011 ∧ hdr 1009 = hdr 1012 := by decide +kernel
+
+/-- network RTK: the combined correction difference contains the ionospheric and geometric ones -/
+theorem C10_network_rtk :
+    isSublist (blk 1015) (blk 1017) = true ∧ isSublist (blk 1016) (blk 1017) = true
+    ∧ isSublist (blk 1037) (blk 1039) = true ∧ isSublist (blk 1038) (blk 1039) = true
+    ∧ hdr 1015 = hdr 1016 ∧ hdr 1015 = hdr 1017 ∧ hdr 1037 = hdr 1038 ∧ hdr 1037 = hdr 1039 := by
+  decide +kernel
+
+/-- every constellation shares one MSM layout per MSM level (type / width / resolution of every field
+    and the group structure).  GLONASS carries the 30-bit epoch as 3 + 27 bits, so it is compared
+    after the epoch. -/
+theorem C10_msm_one_layout_per_level :
+    ∀ l ∈ [1, 2, 3, 4, 5, 6, 7],
+      (∀ c ∈ [2, 3, 4, 5, 6], lsigItems T (defOf T (1070 + 10 * c + l)) = lsigItems T (defOf T (1070 + l)))
+      ∧ lsigItems T ((defOf T (1080 + l)).drop 4) = lsigItems T ((defOf T (1070 + l)).drop 3)
+      ∧ lsigItems T ((defOf T (1080 + l)).take 2) = lsigItems T ((defOf T (1070 + l)).take 2)
+      ∧ fixedBits T ((defOf T (1080 + l)).take 4) = fixedBits T ((defOf T (1070 + l)).take 3) := by
+  decide +kernel
+
+/-- the 42 per-constellation IGS entries are IGM01 … IGM07 repeated for each of the six constellations -/
+theorem C10_igs_one_layout_per_type :
+    ∀ c ∈ [2, 3, 4, 5, 6], ∀ l ∈ [1, 2, 3, 4, 5, 6, 7],
+      lsigItems T (defOf T 4076 (some (20 * c + l))) = lsigItems T (defOf T 4076 (some (20 + l))) := by
+  decide +kernel
+
+/-- which identities have a payload definition (pinned: 7 MSM levels × 7 constellations,
+    IGM01-07 × 6 constellations + 4076_201) -/
+theorem C10_msm_keys : T.msm.map (·.1) =
+    ([0, 1, 2, 3, 4, 5, 6].flatMap fun c => [1, 2, 3, 4, 5, 6, 7].map fun l => (⟨1070 + 10 * c + l, none⟩ : Ident)) := by
+  decide +kernel
+
+theorem C10_igs_keys : T.igs.map (·.1) =
+    ([1, 2, 3, 4, 5, 6].flatMap fun c => [1, 2, 3, 4, 5, 6, 7].map fun l => (⟨4076, some (20 * c + l)⟩ : Ident))
+      ++ [⟨4076, some 201⟩] := by
+  decide +kernel
+
 end Rtcm
